@@ -163,6 +163,7 @@ P1 = [
     (r"(a)+c$", "UseReverseAnchored", "q cap"),
     (r"[a-z]+(\d)*x\.tx", "UseReverseSuffix", "q cap"),
     (r"\b[ab]+\b", "UseNFA", "q"),                       # NFA strategy + pooled backtracker, no prefilter (seeded change C07-2)
+    (r"[0-5]+\.\d+", "UseDigitPrefilter", "q"),           # leading digit SUB-class: a match can start inside a digit run (fix 2049841)
     (r".*co[0-9]+", "UseReverseInner", "q"),             # greedy prefix over a later inner literal (fix cba9df1)
     (r".+a", "UseReverseSuffix", "q cap"),               # guard of the limited reverse search (fix bb986bd)
     (r"[a-z]+a", "UseReverseSuffix", "q"),
@@ -257,6 +258,8 @@ WINDOWS = {
     r"(?s).*ab": [("\n", "b"), ("x\ny a", "")],
     r".+co.+": [("co", ""), ("", "co"), ("c", "a")],
     r".*co[0-9]+": [("xco1 ", ""), ("co1 ", "2"), ("", "o1")],
+    r"[0-5]+\.\d+": [("6", ""), ("96 7", "")],
+    r".*?\.tx": [("a.tx", ""), ("a", "x.tx")],
     r"[a-z]+(\d)*x\.tx": [("a", ".tx")],
     r"\b(?:foo|bar)[0-9]{4}[a-z]{4}": [(" xbar1234abcd ", "1234abcd"), ("xfoo1234abcd-", "1234abcd"), ("foo1234abcd bar1234abcd ", "")],
     r"abc|abd|xyz\d": [("xyz", ""), ("ab", ""), ("xy", "1")],
